@@ -89,5 +89,48 @@ def rule_e2(repo):
     return res
 
 
+def rule_e3(repo):
+    """A constant that is a proper fraction is printed as `n/d`: its text contains the operator `/`, so for
+    bracket decisions it must count as a quotient, whatever its sign."""
+    from ..cfg import cfg_of
+    res = RuleResult('C19.E3', 'a fraction constant has the printing priority of the division it is printed with', floor=1)
+    f = repo.func(EXPR, 'Expr.priority')
+    cfg = cfg_of(f.node)
+    prio, _line = _op_priority(repo)
+    # tests that establish "proper fraction": isinstance(self.val, Fraction) and denominator != 1
+    frac_tests = [n for n in cfg.test_nodes() if (isinstance(n.ast, ast.Call) and is_name(n.ast.func, 'isinstance') and
+                                                  'Fraction' in src(n.ast)) or 'denominator' in src(n.ast)]
+    need(frac_tests, 'Expr.priority: test for fraction constants not found')
+    const_tests = [n for n in cfg.test_nodes() if 'CONST' in src(n.ast) and 'ty' in src(n.ast)]
+    need(const_tests, 'Expr.priority: branch for constants not found')
+    starts = [b for b, l in const_tests[0].succ if l == 'true']
+    # returns reachable in the constant branch while the value may still be a proper fraction
+    maybe_frac = cfg.reach_from(starts, skip_edges={(n.id, 'false') for n in frac_tests})
+    other_kind_tests = [n for n in cfg.test_nodes() if n is not const_tests[0] and 'ty' in src(n.ast) and n.id in cfg.reach_from([b for b, l in const_tests[0].succ if l == 'false'])]
+    bad = []
+    n_rets = 0
+    for r in cfg.return_nodes():
+        if r.id not in maybe_frac or r.ast.value is None:
+            continue
+        # only returns of the constant branch
+        if any(r.id in cfg.reach_from([b for b, l in t.succ if l == 'true']) for t in other_kind_tests):
+            continue
+        n_rets += 1
+        v = r.ast.value
+        if isinstance(v, ast.Subscript) and is_name(v.value, 'op_priority') and isinstance(v.slice, ast.Constant):
+            val = prio.get(v.slice.value)
+        elif isinstance(v, ast.Constant):
+            val = v.value
+        else:
+            val = None
+        if val is None or val > prio['/']:
+            bad.append('line %d returns %s' % (r.lineno, src(v)))
+    res.add('%s :: Expr.priority :: fraction-constant' % EXPR, n_rets > 0 and not bad,
+            'a constant that may be a proper fraction never gets a priority above that of `/` (%d)' % prio['/'] if n_rets and not bad else
+            'a constant that is a proper fraction can get a priority above `/` (%s): y / (-1/2) prints as y / -1/2, which parses as '
+            '(y / -1) / 2' % '; '.join(bad), f.loc)
+    return res
+
+
 def rules(repo):
-    return [rule_e1(repo), rule_e2(repo)]
+    return [rule_e1(repo), rule_e2(repo), rule_e3(repo)]
